@@ -1,5 +1,5 @@
 From Coq Require Import Extraction ExtrOcamlBasic.
-From PV Require Import Lib.ExtractBase Model.Pool Model.PoolLaunch Model.GrpcJsonStart Model.GrpcWarmUp Model.EncAggrRun Model.PlugFactory Model.ScanDecode.
+From PV Require Import Lib.ExtractBase Model.Pool Model.PoolLaunch Model.GrpcJsonStart Model.GrpcWarmUp Model.EncAggrRun Model.PlugFactory Model.ScanDecode Model.JsonDecode.
 Extraction Language OCaml.
 Extraction "extracted/C05_model.ml" xb_types grun first_disabled ginit gstep fixed orig current terminal wait_returns
   total_created total_closed total_unbound all_finished any_panicked
@@ -9,4 +9,5 @@ Extraction "extracted/C05_model.ml" xb_types grun first_disabled ginit gstep fix
   warm_up tree_policy wres_failed gw_spec_fails gw_spec_cause gw_spec_methods gw_services gw_methods refusal_is_failure code_not_found
   ea_run tree_epolicy ea_spec_fails ea_spec_first ea_of_trace ea_occurs ecause_eqb
   factory_call tree_cvprog factory_spec creation_error fres_failed wf_out wf_direct
-  dp_run sd_current sd_spec_fails sd_spec_delivered sd_file.
+  dp_run sd_current sd_spec_fails sd_spec_delivered sd_file
+  jd_pass jd_passes jd_current jd_spec_fails jd_spec_delivered jd_items jd_count_ammo.
